@@ -58,9 +58,9 @@ Combos(wr) ==
 \* kind 0: literal, 1: symbol size + v, 2: symbol size * v
 SZ(k, v) == [k |-> k, v |-> v]
 SizeClasses == {SZ(0, -5), SZ(0, -1), SZ(0, 0), SZ(0, 1), SZ(1, -1), SZ(1, 0), SZ(2, 10)}
-SizePairs == {<<SZ(0, 0), SZ(0, 0)>>, <<SZ(0, 1), SZ(0, 1)>>, <<SZ(1, -1), SZ(1, 0)>>, <<SZ(2, 10), SZ(2, 10)>>, <<SZ(0, -1), SZ(0, 0)>>}
+SizePairs == {<<SZ(3, 0), SZ(0, 10)>>, <<SZ(0, 10), SZ(3, 7)>>, <<SZ(3, 30), SZ(3, 30)>>, <<SZ(0, 0), SZ(0, 0)>>, <<SZ(0, 1), SZ(0, 1)>>, <<SZ(1, -1), SZ(1, 0)>>, <<SZ(2, 10), SZ(2, 10)>>, <<SZ(0, -1), SZ(0, 0)>>}
 SizePairs2 == {<<SZ(0, 0), SZ(0, 0)>>, <<SZ(2, 10), SZ(2, 10)>>}
-Resolve(sz, sym) == IF sz.k = 0 THEN sz.v ELSE IF sz.k = 1 THEN sym + sz.v ELSE sym * sz.v
+Resolve(sz, sym) == IF sz.k = 0 THEN sz.v ELSE IF sz.k = 1 THEN sym + sz.v ELSE IF sz.k = 2 THEN sym * sz.v ELSE 1073741824   \* k = 3: MaxInt64 - v, reported as 2^30
 
 (* ------------------------------------------------------------------ configurations *)
 Cfg(wr, f, a, b, hs) == [wr |-> wr, fmt |-> f, wk |-> a.k, w0 |-> a.v, hk |-> b.k, h0 |-> b.v, hints |-> hs]
